@@ -32,3 +32,4 @@ std::string toHex(const uint8_t *p, size_t n);
 typedef int (*ComponentMain)();
 int comp_volume();
 int comp_wopn();
+int comp_bankmap();
